@@ -58,6 +58,26 @@ theorem readPoison_nonKey (ps : List PoisonId) (b : Bool) : OpsIn nonKeyOp (read
   | nil => exact .done _
   | cons p ps ih => exact .op _ _ trivial (fun _ => ih _)
 
+theorem guardDropO_nonKey (m : Mode) (items : List GuardItem) (pk : Bool) :
+    OpsIn nonKeyOp (guardDropO m items pk) := by
+  induction items generalizing pk with
+  | nil => exact .done _
+  | cons it items ih =>
+    cases it with
+    | poisonRef p =>
+      simp only [guardDropO]
+      exact .op _ _ trivial (fun _ => ih _)
+    | leaf x isM =>
+      simp only [guardDropO]
+      refine .op _ _ trivial (fun r => ?_)
+      cases r
+      · exact ih _
+      · exact ih _
+      · show OpsIn nonKeyOp (if pk then Prog.abort else guardDropO m items true)
+        split
+        · exact .abort
+        · exact ih _
+
 theorem guardDrop_nonKey (m : Mode) (items : List GuardItem) (pk : Bool) :
     OpsIn nonKeyOp (guardDrop m items pk) := by
   induction items generalizing pk with
@@ -79,6 +99,13 @@ theorem guardDrop_nonKey (m : Mode) (items : List GuardItem) (pk : Bool) :
         split
         · exact .abort
         · exact ih _
+
+theorem guardDropN_nonKey (outer : Bool) (m : Mode) (items : List GuardItem) :
+    OpsIn nonKeyOp (guardDropN outer m items) := by
+  unfold guardDropN
+  split
+  · exact guardDropO_nonKey _ _ _
+  · exact guardDrop_nonKey _ _ _
 
 theorem debugLeaf_nonKey (x : LockId) (m : Mode) (b : Nat) : OpsIn nonKeyOp (debugLeaf x m b) := by
   unfold debugLeaf
@@ -245,7 +272,7 @@ theorem guardPhase_key (C : Ctx) (S : Shape) (ses : Session) (u' : UserSt) (g : 
     | unlock =>
       simp only []
       rw [wp_bind]
-      apply key_frame (guardDrop_nonKey _ _ _) _ _ _ _ (fun _ => trivial)
+      apply key_frame (guardDropN_nonKey _ _ _) _ _ _ _ (fun _ => trivial)
       intro panicked
       split
       · exact key_finish _ u' g Q (by out20) hu hg hQ
@@ -253,13 +280,13 @@ theorem guardPhase_key (C : Ctx) (S : Shape) (ses : Session) (u' : UserSt) (g : 
     | drop =>
       simp only []
       rw [wp_bind]
-      apply key_frame (guardDrop_nonKey _ _ _) _ _ _ _ (fun _ => trivial)
+      apply key_frame (guardDropN_nonKey _ _ _) _ _ _ _ (fun _ => trivial)
       intro panicked
       exact key_finish _ u' g Q (by out20) hu hg hQ
     | ret =>
       simp only []
       rw [wp_bind]
-      apply key_frame (guardDrop_nonKey _ _ _) _ _ _ _ (fun _ => trivial)
+      apply key_frame (guardDropN_nonKey _ _ _) _ _ _ _ (fun _ => trivial)
       intro panicked
       exact key_finish _ u' g Q (by out20) hu hg hQ
   · exact hafter
